@@ -367,8 +367,8 @@ func cmdCoqCases(in string, k int, out string) {
 		if len(parts) != 2 {
 			continue
 		}
-		if len(parts[0]) > 12000 || len(parts[1]) > 12000 {
-			continue
+		if len(parts[0]) > 12000 || len(parts[1]) > 12000 || parts[1] == "HUGE-RESULT" {
+			continue // HUGE-RESULT: compared by size in the extracted model only
 		}
 		name := fmt.Sprintf("case_%d", i)
 		w.WriteString("Definition " + name + " : string * string := (" + coqString(parts[0]) + ", " + coqString(parts[1]) + ").\n")
